@@ -29,3 +29,14 @@ seq_check('C43', 'c43_cpuset',
           'bounded-exhaustive enumeration of CpuSet operation sequences against std::set, of all short strings through the CPU-list parser against a reference grammar, and of all small cache topologies through the grouping function',
           'Set algebra: BFS over all sequences (depth 4 quick, closed state space at depth 6 thorough) of add/remove over 9 ids and addRange/removeRange over all 81 id pairs incl. negative and huge ids, contains/count compared with std::set restricted to the representable range after every step. Parser: every string of length <=6 (7 thorough) over {0,1,9,comma,dash,space,newline,x} plus all lists of <=3 items with bounds from the id set; well-formed lists must yield exactly the in-range ids they denote, everything else must stay in range and UB-free. Grouping: every topology of <=6 (7) CPUs (all set partitions into L2 groups x all assignments to <=3 L3 groups or unknown, dense and sparse ids) x maxGroupSize 1..7 (8); the four clauses of the statement checked on the output.',
           'single-threaded; functions reached through the exported entry points with injected inputs (no sysfs reads in the enumerated part)')
+
+seq_check('C17', 'c17_chunking',
+          'exhaustive enumeration of item/chunk/granularity domains through staticChunkSize, its granular variant and the real boundary-mapping code of static parallel_for and for_each, against a reference partition',
+          'staticChunkSize for all items 0..4096 x chunks 1..130; the granular variant for g 1..17, items=g*u, u 0..600, chunks 1..70; the overflow frontier items+chunks-1 <= SSIZE_MAX; parallel_for_staticImpl / StaticChunkMapper for every 8-bit range x every thread count x wait x every dividing granularity; public parallel_for on every 8-bit range; 16/32/64-bit ranges at their extremes (including ranges wider than the positive half of the type); for_each_n on vector and list for n 0..300 x threads 1..40 (thorough: ranges x4). Oracle: every chunk executed once, chunks contiguous and covering exactly, sizes multiples of g, larger chunks first, sizes equal to the reference partition; UBSan reports on any enumerated input are violations.',
+          'the real headers are instantiated with an inline task-set stand-in that runs scheduled closures on the caller, so the arithmetic under test is the library\'s own; scheduling is covered by C12/C15',
+          quick_budget=150, thorough_budget=1200)
+seq_check('C44', 'c44_bitmath',
+          'exhaustive enumeration of all 2^32 inputs of the 32-bit bit-math overloads (structured 64-bit set for the 64-bit ones) against loop-based reference definitions',
+          'Every v in [0,2^32) through log2 (32/64-bit), countTrailingZeros, countSetBits, nextPow2, alignToCacheLine; log2const on every v < 2^26 plus the structured set (all 2^32 in thorough); a structured 64-bit set (every value with <=3 set bits, every 2^k+d with |d|<=3, structured 32-bit values at every shift; thorough adds all v<<s for v in [2^31,2^32)); alignedMalloc/alignedFree for every power-of-two alignment 1..2^16 x sizes {0,1,63,64,65,4097} x heap phases. Documented domains respected (nextPow2 up to 2^63, log2/ctz on non-zero values).',
+          'the 64-bit domain is covered by a structured subset, not exhaustively (exhaustive:false is reported for that part)',
+          quick_budget=200, thorough_budget=1500)
